@@ -59,9 +59,10 @@ Definition ok_header_bind (s : state) (_ : op) (_ : state) (outs : list out) : b
                     | OWire _ (WBind r) => Bool.eqb r (jid_res s)
                     | _ => true end) outs.
 
-(* "connected" is reported at most once per attempt and only when justified by what was received *)
+(* "connected" is reported at most once per attempt (client and component connections; a raw connection
+   reports it at every stream the user opens, as documented) and only when justified by what was received *)
 Definition ok_connect (_ : state) (_ : op) (s' : state) (_ : list out) : bool :=
-  (Nat.leb (g_connects (gh s')) 1) && negb (g_conn_unjust (gh s')).
+  (is_raw s' || Nat.leb (g_connects (gh s')) 1) && negb (g_conn_unjust (gh s')).
 
 (* before "connected": no user handler runs, no user stanza reaches the wire *)
 Fixpoint scan_user (up : bool) (outs : list out) : bool :=
@@ -101,7 +102,7 @@ Definition is_disc (c : cstate) : bool := match c with Disconnected => true | _ 
 (* at most one connect, then exactly one disconnect by the time the attempt is over, never two *)
 Definition ok_outcome (s : state) (_ : op) (s' : state) (outs : list out) : bool :=
   let g := gh s' in
-  Nat.leb (g_connects g) 1 && Nat.leb (g_disconnects g) 1 &&
+  (is_raw s' || Nat.leb (g_connects g) 1) && Nat.leb (g_disconnects g) 1 &&
   scan_no_connect_after (Nat.ltb 0 (g_disconnects (gh s)) && g_attempt (gh s)) outs &&
   (negb (g_attempt g) || Bool.eqb (is_disc (st s')) (Nat.eqb (g_disconnects g) 1)).
 
